@@ -31,6 +31,7 @@ With a veto the auto clause does not apply (the property says "no veto"); the ve
 -/
 import DastardV.Lemmas.LevelGlobal
 import DastardV.Lemmas.AutoGlobal
+import DastardV.Lemmas.PipeProj
 namespace DastardV.C02
 open Trig
 
@@ -236,6 +237,65 @@ theorem C02_auto_gap_after_reconfigure {c c' : Chan} {ts : TS} {npre nsamp f0 : 
 
 /-- the effective delay is the configured one, or one record if that is longer -/
 theorem autoD_def (ts : TS) (nsamp : Int) : autoD ts nsamp = if ts.autoDelay < nsamp then nsamp else ts.autoDelay := rfl
+
+/-! ### The same at the level of the whole source
+
+`Pipe.runOps` is the model the correspondence check compares with the real `ProcessSegments` (all
+channels, trigger broker, group-trigger secondaries).  `Pipe.runOps_chan` shows that it treats every
+channel exactly as `runChan` does, so the clauses above hold for the primary records the SOURCE
+publishes for each channel, whatever the other channels and the broker do. -/
+
+open Pipe in
+/-- **C02 at source level.**  `ops` are block operations giving channel `j` the segments `segs`
+(contiguous from frame `f0`, constant signedness, any time stamps); channel `j` of the source `s` is
+as a start leaves it.  Then for the primary records `prims` the source publishes for channel `j`:
+the edge clause, the level clause and the auto clause of C02 hold (each under its own enabling
+condition). -/
+theorem C02_source_level {zts : List (List (Int × Int))} {j : Nat} {sg : Bool} {tp : Nat → Int × Int} {n : Nat}
+    {ops : List Op} {f0 : Int} {segs : List (List Nat)} {s : Src} {c : Chan} {outs : List Out}
+    {ts : TS} {npre nsamp : Int}
+    (hb : BlocksFor j sg tp n f0 ops segs) (hc : s.chans[j]? = some c) (hrun : runOps zts s ops = some outs)
+    (hv : 3 ≤ npre ∧ npre < nsamp) (hem : ts.edgeMulti = false) (hfresh : Fresh c ts npre nsamp f0) :
+    ∃ parts, OutsFor j outs parts ∧
+      let prims := ((parts.map (·.1)).flatten).map (·.frame)
+      (ts.edge = true → ∀ p : Int, npre ≤ p → p + (nsamp - npre) < (segs.flatten.length : Int) →
+        edgeAtG (cfgChan ts sg) segs.flatten p = true → Cov nsamp f0 prims p) ∧
+      (ts.level = true → ∀ p : Int, npre ≤ p → p + (nsamp - npre) < (segs.flatten.length : Int) →
+        levelAtG (cfgChan ts sg) segs.flatten p = true → Near nsamp f0 prims p) ∧
+      (ts.auto = true → ts.autoVeto = 0 → ∀ a b, [a, b] <:+: prims → a ≤ b ∧ b - a ≤ autoD ts nsamp + nsamp) ∧
+      (ts.edge = true → ts.level = false → ts.auto = false →
+        (∀ T ∈ prims, edgeAtG (cfgChan ts sg) segs.flatten (T - f0) = true) ∧
+        prims.Pairwise (fun a b => a + nsamp ≤ b)) := by
+  obtain ⟨c', parts, hof, hrc⟩ := runOps_chan_frames zts j sg tp ops n f0 segs s c outs hb hc hrun
+  refine ⟨parts, hof, ?_, ?_, ?_, ?_⟩
+  · intro hedge
+    exact C02_edge_complete hv hem hedge hfresh segs hrc
+  · intro hlevel
+    exact C02_level_complete hv hem hlevel hfresh segs hrc
+  · intro hauto hveto
+    exact C02_auto_gap hv hem hauto hveto hfresh segs hrc
+  · intro hedge hl ha
+    exact ⟨C02_edge_only_sound hv hem hedge hl ha hfresh segs hrc,
+      C02_edge_only_no_overlap hv hem hedge hl ha hfresh segs hrc⟩
+
+open Pipe in
+/-- every channel of a source as `PrepareRun` leaves it (restored or default trigger settings) is
+`Fresh`, with edge-multi off — so `C02_source_level` applies from the very first block of a run -/
+theorem prepare_fresh {nch : Nat} {npre nsamp : Int} {saved : List (Nat × TS)} {j : Nat} {c : Chan} {f0 : Int}
+    (h : (prepare nch npre nsamp saved).chans[j]? = some c) (hf0 : -2305843009213693952 + nsamp ≤ f0) :
+    Fresh c c.ts npre nsamp f0 ∧ c.ts.edgeMulti = false := by
+  unfold prepare at h
+  simp only [List.getElem?_map] at h
+  cases hr : (List.range nch)[j]? with
+  | none => simp [hr] at h
+  | some i =>
+    simp only [hr, Option.map_some, Option.some.injEq] at h
+    subst h
+    refine ⟨⟨rfl, rfl, rfl, rfl, rfl, ?_⟩, ?_⟩
+    · show (-2305843009213693952 : Int) + nsamp ≤ f0
+      exact hf0
+    · simp only
+      split <;> rfl
 
 /-! ### Non-vacuity -/
 
